@@ -168,6 +168,15 @@ CLAIMED['C05'] = dict(
          'Inner numerals are C03; the extractor/matcher side is C16; other cultures and compound control flow are outside. Known findings F4, F12. ' + NOTE_COMMON,
     design='§5/C05')
 
+CLAIMED['C02'] = dict(
+    technique='inductive cache step on symbolic keys + solver-driven exploration (symx) of ordered request pairs x cache state x thread through the public API',
+    text=SX + 'Purity is reduced to the state that outlives a call. The model cache is covered by one inductive step from an arbitrary valid cache state (any history, any order). '
+         'Every ordered pair of 16 public-API requests (5 recognisers, 6 cultures), with cold or warm cache and the second request on the main or on a fresh thread, must give the '
+         'second request the result it has alone; 2..4 threads issuing one request at once on a cold cache must all get that result.',
+    note='Thread interleavings inside a call are exercised (one schedule each), not explored: no installed engine controls the GIL schedule, so the "all interleavings" part of the '
+         'quantifier is outside the claim. The request pool stands for "any request". Defect F6 (thread-local decimal precision) was found this way and repaired. ' + NOTE_COMMON,
+    design='§5/C02')
+
 NOT_APPLICABLE = {
     'C18': 'ground equality of ~50 concrete generated files against concrete YAML: no quantified variable for a solver to range over; '
            'deciding it is executing the generator (whose dependency ruamel.yaml is absent from every usable interpreter)',
